@@ -271,6 +271,39 @@ theorem C15_interval_reentry_ordered (names : List Text) (N : Int) (a b : Num) (
 /-- the two branches are both taken: `[1/3, 1/2]` keeps the displayed bounds; for `[1/10, 1/10]` … exact bounds never cross -/
 example : readsBack 6 (.frac (1/3)) ≤ readsBack 6 (.frac (1/2)) := by decide +kernel
 
+/-- **C15 (intervals, full-digit form).**  The full-digit rendering of a finite non-zero float bound (`"{:.16e}"`, fix a02f165) always
+    has a decimal point — so the tokeniser reads it back as a float, never as an exact decimal (`2e-12` was the counterexample of
+    the `{:.17g}` form) — and its mantissa has exactly 17 significant digits. -/
+theorem C15_full_digits_have_point (x : Float) (hn : x.isNaN = false) (hi : x.isInf = false) (hz : (x == 0) = false)
+    (hq : Num.floatToRat x ≠ 0) : '.' ∈ fmtE16 x := by
+  unfold fmtE16
+  simp only [hn, hi, hz, Bool.false_eq_true, if_false]
+  set q := Num.floatToRat x with hqd
+  set a : Rat := if q < 0 then -q else q with had
+  have ha : 0 < a := by
+    rw [had]
+    split
+    · rename_i h; linarith
+    · rename_i h
+      rcases lt_or_gt_of_ne hq with h' | h'
+      · exact absurd h' h
+      · exact h'
+  obtain ⟨h1, h2, -, -⟩ := sigDigits_spec (P := 17) (by norm_num) ha
+  have hlen : (natText (sigDigits 17 a).1).length = 17 := natText_length_eq (by norm_num) h1 h2
+  obtain ⟨d, r, hdr⟩ : ∃ d r, natText (sigDigits 17 a).1 = d :: r := by
+    cases hnt : natText (sigDigits 17 a).1 with
+    | nil => rw [hnt] at hlen; simp at hlen
+    | cons d r => exact ⟨d, r, rfl⟩
+  have hr : r ≠ [] := by
+    intro hr; rw [hdr, hr] at hlen; simp at hlen
+  obtain ⟨d2, r2, hr2⟩ : ∃ d2 r2, r = d2 :: r2 := by
+    cases r with
+    | nil => exact absurd rfl hr
+    | cons d2 r2 => exact ⟨d2, r2, rfl⟩
+  show '.' ∈ (if q < 0 then ['-'] else []) ++ layoutExp (natText (sigDigits 17 a).1) (sigDigits 17 a).2
+  rw [hdr, hr2]
+  simp [layoutExp]
+
 /-! ### non-vacuity -/
 
 /-- `-7/3` is shown as `-2 1/3` -/
